@@ -78,6 +78,9 @@ func p7Call(f api.Function, args ...uint64) (out string) {
 	if err != nil {
 		return canonErr(err)
 	}
+	if len(res) == 0 {
+		return "ok"
+	}
 	return "ok:" + u(res[0])
 }
 
